@@ -7,7 +7,7 @@ CFG = dict(
                "a profile minus itself has every entry 0; CompatibilizeSampleTypes keeps all samples and carries columns by name; integer unit ratios "
                "multiply exactly; a scaled column's total becomes ratio*total +- n/2 (the -normalize clause, partial); ScaleN never loses a non-zero value outside class F4 (refuted inside: scale_n_keep_refuted). Model tied to "
                "fetchProfiles + generateRawReport/TextItems by ~900 (quick) / ~15k (thorough) differential tuples, each also judged by the "
-               "independent checker spec_ok (linearity per entry, finest unit, base total, -proto round trip, self-diff emptiness).",
+               "independent checker spec_ok (linearity per entry, finest unit, base total, diff_base_roundtrip = report after the driver's real -proto command + reopen has the same total and entries, self-diff emptiness).",
     level_note="partial: the end-to-end composition through CompatibilizeSampleTypes/ScaleProfiles (full_statement_fetch_linear), the -normalize "
                "total bound (full_statement_normalize_total) and the -diff_base percentage base (full_statement_diff_base_total) are stated in full "
                "in P_C07.v but only their stage theorems are proved; those clauses are covered by correspondence + the evaluated checker. "
@@ -23,7 +23,7 @@ CFG = dict(
     spec_what="the combined / subtracted report is not the entry-wise sum / difference of the individual reports (or: common sample type "
               "dropped, unit not the finest, -diff_base percentage base is not the base total, -proto round trip changes the report, profile minus itself not empty)",
     trusted_base=["translator gen-unittable (dumps measurement.UnitTypes)",
-                  "export shims harness/overlay/internal/driver/zz_verif_c07.go (call fetchProfiles / generateRawReport with in-memory sources, a no-op symbolizer and a silent UI)",
+                  "export shims harness/overlay/internal/driver/zz_verif_c07.go (call fetchProfiles / generateRawReport / generateReport(proto) with in-memory sources and an in-memory output Writer, a no-op symbolizer and a silent UI)",
                   "float64 arithmetic of ScaleN/Normalize/Scale modelled by exact rationals: cases where a -normalize product sits on a rounding "
                   "boundary with a non-dyadic ratio (class 901) or magnitudes reach 2^50 where float64 is used (class 902) are skipped and counted",
                   "profile.Merge's re-interning of functions/locations/mappings (C03) - generators give all profiles of a tuple one symbol table with pairwise distinct locations and function names",
